@@ -66,8 +66,9 @@ Lemma qinv_icons img b q rs x tf :
   /\ (sstat (iget img) b q = Running -> run_shape (iget img) b q (length rs))
   /\ sstat (iget img) b q <> Stopped.
 Proof.
-  unfold scons, sstat, run_shape, all_done, all_fresh, fail_pat, acell. fold (ist img (OSeq b q)).
+  unfold scons, sstat, run_shape, acell. fold (ist img (OSeq b q)).
   change (fun i => iget img (OAct (ASeq b q i))) with (qcf img b q).
+  unfold sconsf, run_shapef, all_donef, all_freshf, fail_patf.
   destruct x as [|j y|v|v]; simpl; intro H.
   - destruct H as [E H]. rewrite E. split; [|split; [discriminate|discriminate]].
     intros i Hi. exact (proj1 (H i Hi)).
